@@ -56,7 +56,49 @@ VECTS = [
     ([1.0, 0.0, 0.0], [0.0, 1.0, 0.0], [[3.0, 0.0, 0.0], [1.0, 2.5, 0.0], [0.5, -0.75, 4.0]], 'tri-box'),
     ([1.0, 1.0, 0.0], [0.5, -1.0, 1.0], [[3.0, 0.0, 0.0], [-0.5, 4.0, 0.0], [1.0, 0.5, 5.0]], 'tri-box-oblique'),
     ([0.5, 0.0, -0.5], [0.5, -1.0, 0.5], [[4.0, 0.0, 0.0], [0.0, 4.0, 0.0], [0.0, 0.0, 4.0]], 'fcc111'),
+    # cells whose vects matrix is NOT symmetric (row/column mix-ups of `a1vect . vects` show only here):
+    # hexagonal (basal and prismatic shifts), monoclinic, a rotated (not LAMMPS-normalised) triclinic cell
+    ([1.0, 0.0, 0.0], [0.0, 1.0, 0.0], [[3.0, 0.0, 0.0], [-1.5, 2.598076211353316, 0.0], [0.0, 0.0, 5.0]], 'hex-basal'),
+    ([0.0, 1.0, 0.0], [0.0, 0.0, 1.0], [[3.0, 0.0, 0.0], [-1.5, 2.598076211353316, 0.0], [0.0, 0.0, 5.0]], 'hex-prism'),
+    ([1.0, 0.0, 0.0], [0.0, 0.0, 1.0], [[3.0, 0.0, 0.0], [0.0, 4.0, 0.0], [-1.25, 0.0, 5.0]], 'mono'),
+    ([1.0, 0.0, 1.0], [0.0, 1.0, -1.0], [[2.4, 1.8, 0.0], [-1.8, 2.4, 0.5], [0.25, -0.5, 4.0]], 'tri-rot'),
 ]
+
+
+class Raised:
+    """an exception raised by the implementation: an OBSERVATION that is compared with the model's / the
+    oracle's outcome and reported, never a crash of the harness."""
+
+    def __init__(self, e):
+        self.cls = ('err:assert' if isinstance(e, AssertionError) else 'err:value' if isinstance(e, ValueError)
+                    else 'err:type' if isinstance(e, TypeError) else 'err:raised')
+        self.text = f'{type(e).__name__}: {str(e)[:160]}'
+
+    def __str__(self):
+        return f'raised {self.text}'
+
+
+def call(fn, *a, **kw):
+    """call into atomman; an exception comes back as a `Raised` value."""
+    try:
+        return fn(*a, **kw)
+    except cm.InfraError:
+        raise
+    except Exception as e:  # noqa
+        return Raised(e)
+
+
+def guarded(ctx, key, rep, fn, *a, **kw):
+    """run one correspondence case; anything escaping it is reported as a disagreement of that case."""
+    try:
+        return fn(*a, **kw)
+    except cm.InfraError:
+        raise
+    except Exception as e:  # noqa
+        import traceback
+        where = [l.strip() for l in traceback.format_exc().splitlines() if l.strip().startswith('File ')][-1:]
+        ctx.disagree(key + ':raises', f'{key}: {type(e).__name__}: {str(e)[:200]} ({"; ".join(where)})', rep)
+        return None
 
 
 def gen_gamma_spec(rng, regime=None, vects=None, grid=None, dup=None, delta=None, sinus=None):
@@ -231,14 +273,50 @@ def _wrap_exempt(spec, q, c):
     return abs(t - round(t)) < F(1, 10 ** 9)
 
 
-def _egsf_case(ctx, spec, g, rec, cs, queries, via='a12'):
+def _egsf_case(ctx, spec, g, rec, cs, queries, via='a12', xname='default'):
+    """E_gsf through one of its three entry points (`a1=,a2=` | `pos=` | `x=,y=[,xvect=]`): the query is reduced
+    to fractional coordinates by the model (`Query.toA12?`), wrapped and blended by the model with the
+    interpolant values the implementation used."""
     np = _np()
     c1, c2 = cs
     q1 = np.array([p[0] for p in queries], dtype=float)
     q2 = np.array([p[1] for p in queries], dtype=float)
     rec.calls.clear()
-    impl = np.asarray(g.E_gsf(a1=q1.copy(), a2=q2.copy()), dtype=float)
-    rep = {'op': 'egsf', 'spec': spec, 'queries': [list(p) for p in queries]}
+    rep = {'op': 'egsf', 'spec': spec, 'queries': [list(p) for p in queries], 'via': via, 'xvect': xname}
+    exact = spec['regime'] == 'dyadic' and via == 'a12'
+    if via == 'a12':
+        impl = call(g.E_gsf, a1=q1.copy(), a2=q2.copy())
+        fr = [(F(float(a)), F(float(b))) for a, b in zip(q1, q2)]
+    else:
+        A1, A2, _ = cart_vects(spec)
+        head = cm.frs(A1) + ' ' + cm.frs(A2)
+        m = len(queries)
+        P = np.array([float(t) for t in cm.unfrs(ctx.driver.ask(f'a2p {head} {m} ' + cm.frs([t for p in queries for t in p])))]).reshape(m, 3)
+        if via == 'pos':
+            impl = call(g.E_gsf, pos=P.copy())
+            o2 = ctx.driver.ask(f'q2apos {head} {m} ' + cm.frs(P))
+        else:
+            X = {'default': None, 'a2': A2.copy(), 'mix': A1 * 0.5 - A2 * 1.5}[xname]
+            Xv = A1 if X is None else X
+            nn = float(np.linalg.norm(np.cross(A1, A2)))
+            nx, ny, nz = _norms(g, Xv)
+            hd = ('none' if X is None else 'some ' + cm.frs(Xv)) + ' ' + head + ' ' + cm.frs([nn, nx, ny, nz])
+            o1 = ctx.driver.ask(f'p2xy {hd} {m} ' + cm.frs(P))
+            xy = np.array([float(t) for t in cm.unfrs(o1)]).reshape(m, 2)
+            impl = call(g.E_gsf, x=xy[:, 0].copy(), y=xy[:, 1].copy(), **({} if X is None else {'xvect': X}))
+            o2 = ctx.driver.ask(f'q2axy {hd} {m} ' + cm.frs(xy))
+        if o2.startswith('err:') or isinstance(impl, Raised):
+            ctx.stats.case('egsf:' + via, (via, xname, spec['tag'], tuple(map(tuple, queries))))
+            if not (isinstance(impl, Raised) and impl.cls == o2):
+                ctx.disagree('egsf:' + via, f'E_gsf({via}, xvect={xname}, {spec["tag"]}): implementation '
+                             f'{impl if isinstance(impl, Raised) else "returned"}, model {o2[:60]}', rep)
+            return
+        t = cm.unfrs(o2)
+        fr = [(t[2 * k], t[2 * k + 1]) for k in range(m)]
+    if isinstance(impl, Raised):
+        ctx.disagree('egsf:raises', f'E_gsf({via}) {impl}', rep)
+        return
+    impl = np.asarray(impl, dtype=float)
     if len(rec.calls) != 4:
         ctx.disagree('egsf:calls', f'E_gsf made {len(rec.calls)} interpolant calls, model has 4 blend nodes', rep)
         return
@@ -253,20 +331,20 @@ def _egsf_case(ctx, spec, g, rec, cs, queries, via='a12'):
     m = len(queries)
     rows = []
     for i in range(m):
-        rows += [q1[i], q2[i]] + [rec.calls[k][1][i] for k in range(4)]
+        rows += [fr[i][0], fr[i][1]] + [F(float(rec.calls[k][1][i])) for k in range(4)]
     line = f'egsf {c1} {c2} {m} ' + cm.frs(rows)
     out = ctx.driver.ask(line)
     if out.startswith('err:'):
         ctx.disagree('egsf:driver-error', f'model refused: {out}', rep)
         return
     vals = cm.unfrs(out)
-    exact = spec['regime'] == 'dyadic'
+    kind = 'egsf' if via == 'a12' else 'egsf:' + via
     for i in range(m):
         w1, w2, x, y, e = vals[5 * i:5 * i + 5]
-        ex = _wrap_exempt(spec, q1[i], c1) or _wrap_exempt(spec, q2[i], c2)
-        ctx.stats.case('egsf', (line[:40], i, float(q1[i]), float(q2[i]), spec['tag'], spec['n1'], spec['n2'], spec['dup']),
+        ex = (not exact) and any(abs(F(q) + F(c) - round(F(q) + F(c))) < F(1, 10 ** 9) for q, c in ((fr[i][0], c1), (fr[i][1], c2)))
+        ctx.stats.case(kind, (line[:40], i, float(q1[i]), float(q2[i]), spec['tag'], spec['n1'], spec['n2'], spec['dup'], via, xname),
                        nontrivial=not ex,
-                       sample={'op': 'E_gsf', 'a1': float(q1[i]), 'a2': float(q2[i]), 'grid': [spec['n1'], spec['n2']],
+                       sample={'op': 'E_gsf', 'via': via, 'a1': float(q1[i]), 'a2': float(q2[i]), 'grid': [spec['n1'], spec['n2']],
                                'wrapped': [float(w1), float(w2)], 'weights': [float(x), float(y)]})
         if ex:
             continue
@@ -275,12 +353,12 @@ def _egsf_case(ctx, spec, g, rec, cs, queries, via='a12'):
         else:
             okw = cm.close(a1w[i], w1, 0, 1e-9) and cm.close(a2w[i], w2, 0, 1e-9)
         if not okw:
-            ctx.disagree('egsf:wrap', f'wrapped query differs at ({q1[i]!r}, {q2[i]!r}): implementation '
+            ctx.disagree('egsf:wrap', f'wrapped query differs at ({q1[i]!r}, {q2[i]!r}) via {via}: implementation '
                          f'({a1w[i]!r}, {a2w[i]!r}), model ({float(w1)!r}, {float(w2)!r})',
                          dict(rep, index=i))
             continue
         if not cm.close(impl[i], e, 1e-9, 1e-10 * scale):
-            ctx.disagree('egsf:value', f'E_gsf({q1[i]!r}, {q2[i]!r}) = {impl[i]!r}, model blend of the same '
+            ctx.disagree('egsf:value', f'E_gsf({q1[i]!r}, {q2[i]!r}) via {via} = {impl[i]!r}, model blend of the same '
                          f'interpolant values = {float(e)!r} (weights {float(x)}, {float(y)})', dict(rep, index=i))
 
 
@@ -289,8 +367,12 @@ def _delta_case(ctx, spec, g, recd, queries):
     q1 = np.array([p[0] for p in queries], dtype=float)
     q2 = np.array([p[1] for p in queries], dtype=float)
     recd.calls.clear()
-    impl = np.asarray(g.delta(a1=q1.copy(), a2=q2.copy()), dtype=float)
+    impl = call(g.delta, a1=q1.copy(), a2=q2.copy())
     rep = {'op': 'delta', 'spec': spec, 'queries': [list(p) for p in queries]}
+    if isinstance(impl, Raised):
+        ctx.disagree('delta:raises', f'delta(a1=, a2=) {impl}', rep)
+        return
+    impl = np.asarray(impl, dtype=float)
     if len(recd.calls) != 1:
         ctx.disagree('delta:calls', f'delta made {len(recd.calls)} interpolant calls, model 1', rep)
         return
@@ -322,7 +404,8 @@ def _norms(g, X):
 
 
 def _conv_case(ctx, spec, g, rng):
-    """coordinate conversions: model vs implementation on the same exact inputs."""
+    """coordinate conversions: model vs implementation on the same exact inputs.  Every call into atomman is
+    guarded: an exception is an outcome that is compared with the model's."""
     np = _np()
     A1, A2, B = cart_vects(spec)
     rep = {'op': 'conv', 'spec': {k: spec[k] for k in ('a1vect', 'a2vect', 'box', 'tag')}}
@@ -343,84 +426,83 @@ def _conv_case(ctx, spec, g, rng):
     scale = max(1.0, float(np.abs(A1).max()), float(np.abs(A2).max())) * 4
     # a12 -> pos
     single = (m == 1 and rng.random() < 0.5)
-    pos = g.a12_to_pos(q1[0], q2[0]) if single else g.a12_to_pos(q1, q2)
+    pos = call(g.a12_to_pos, q1[0], q2[0]) if single else call(g.a12_to_pos, q1, q2)
     out = ctx.driver.ask(f'a2p {head} {m} ' + cm.frs([v for p in pts for v in p]))
     ctx.stats.case('a2p', (spec['tag'], tuple(pts)), sample={'op': 'a12_to_pos', 'vects': spec['tag'], 'points': m})
-    if pos.shape != (m, 3) or not cm.allclose(pos.ravel(), cm.unfrs(out), 1e-12, 1e-12 * scale):
-        ctx.disagree('a12_to_pos', f'a12_to_pos differs ({spec["tag"]}, {m} points)', dict(rep, pts=pts))
-        return
+    if isinstance(pos, Raised) or np.shape(pos) != (m, 3) or not cm.allclose(np.ravel(pos), cm.unfrs(out), 1e-12, 1e-12 * scale):
+        ctx.disagree('a12_to_pos', f'a12_to_pos differs ({spec["tag"]}, {m} points): implementation '
+                     f'{pos if isinstance(pos, Raised) else np.asarray(pos).tolist()}, model {out[:80]}', dict(rep, pts=pts))
+        # continue with the model's positions so that the remaining conversions are still compared
+        pos = np.array([float(v) for v in cm.unfrs(out)]).reshape(m, 3)
     # pos -> a12 on those and on arbitrary in-plane points; out-of-plane point must be refused
     variants = [('many', pos)] + ([('one', pos[0])] if m >= 1 else [])
     for name, P in variants:
-        try:
-            b1, b2 = g.pos_to_a12(P)
-            impl = np.array([np.ravel(b1), np.ravel(b2)]).T.ravel()
-        except AssertionError:
-            impl = 'err:assert'
-        except Exception as e:  # noqa
-            impl = f'raised {type(e).__name__}: {e}'
+        r = call(g.pos_to_a12, P)
+        impl = r.cls if isinstance(r, Raised) else np.array([np.ravel(r[0]), np.ravel(r[1])]).T.ravel()
         PP = np.atleast_2d(P)
         out = ctx.driver.ask(f'p2a {head} {len(PP)} ' + cm.frs(PP))
         ctx.stats.case('p2a', (spec['tag'], name, tuple(pts)), sample={'op': 'pos_to_a12', 'vects': spec['tag'], 'shape': list(np.shape(P))})
         if isinstance(impl, str) or out.startswith('err:'):
             if impl != out:
-                ctx.disagree('pos_to_a12', f'pos_to_a12 ({name}) implementation {impl}, model {out}', dict(rep, pos=PP.tolist()))
+                ctx.disagree('pos_to_a12', f'pos_to_a12 ({name}) implementation {r}, model {out[:60]}', dict(rep, pos=PP.tolist()))
         elif not cm.allclose(impl, cm.unfrs(out), 1e-9, 1e-10):
             ctx.disagree('pos_to_a12', f'pos_to_a12 ({name}) differs ({spec["tag"]})', dict(rep, pos=PP.tolist()))
     off = pos[0] + np.cross(A1, A2) * rng.choice([0.5, -1.0, 1e-3])
-    try:
-        g.pos_to_a12(off)
-        impl = 'ok'
-    except AssertionError:
-        impl = 'err:assert'
+    r = call(g.pos_to_a12, off)
+    impl = r.cls if isinstance(r, Raised) else 'ok'
     out = ctx.driver.ask(f'p2a {head} 1 ' + cm.frs(off))
     ctx.stats.case('p2a:offplane', (spec['tag'], tuple(off)))
-    if (impl == 'err:assert') != (out == 'err:assert'):
-        ctx.disagree('pos_to_a12:assert', f'out-of-plane position: implementation {impl}, model {out}', dict(rep, pos=off.tolist()))
-    # xy conversions with the default and with alternative in-plane x axes
+    if (impl == 'err:assert') != (out == 'err:assert') or (impl not in ('ok', 'err:assert')):
+        ctx.disagree('pos_to_a12:assert', f'out-of-plane position: implementation {r if isinstance(r, Raised) else impl}, '
+                     f'model {out[:60]}', dict(rep, pos=off.tolist()))
+    # xy conversions with the default (xvect=None -> Cartesian a1vect, `xyDefaultX` of the model) and with
+    # alternative in-plane x axes; an out-of-plane axis must be refused by both directions
     nn = float(np.linalg.norm(np.cross(A1, A2)))
     for xname, X in (('default', None), ('a2', A2.copy()), ('mix', A1 * 0.5 - A2 * 1.5), ('offplane', A1 + np.cross(A1, A2))):
         Xv = A1 if X is None else X
         nx, ny, nz = _norms(g, Xv)
-        hd = cm.frs(Xv) + ' ' + head + ' ' + cm.frs([nn, nx, ny, nz])
-        try:
-            x, y = g.pos_to_xy(pos, xvect=X)
-            impl = np.array([np.ravel(x), np.ravel(y)]).T.ravel()
-        except ValueError:
-            impl = 'err:value'
+        xtok = 'none' if X is None else 'some ' + cm.frs(Xv)
+        hd = xtok + ' ' + head + ' ' + cm.frs([nn, nx, ny, nz])
+        r = call(g.pos_to_xy, pos, xvect=X)
+        impl = r.cls if isinstance(r, Raised) else np.array([np.ravel(r[0]), np.ravel(r[1])]).T.ravel()
         out = ctx.driver.ask(f'p2xy {hd} {m} ' + cm.frs(pos))
         ctx.stats.case('p2xy', (spec['tag'], xname, tuple(pts)), sample={'op': 'pos_to_xy', 'vects': spec['tag'], 'xvect': xname})
         if isinstance(impl, str) or out.startswith('err:'):
             if impl != out:
-                ctx.disagree('pos_to_xy', f'pos_to_xy xvect={xname}: implementation {impl}, model {out}', rep)
-            continue
-        if not cm.allclose(impl, cm.unfrs(out), 1e-9, 1e-10 * scale):
+                ctx.disagree('pos_to_xy', f'pos_to_xy xvect={xname} ({spec["tag"]}): implementation {r}, model {out[:60]}', rep)
+        elif not cm.allclose(impl, cm.unfrs(out), 1e-9, 1e-10 * scale):
             ctx.disagree('pos_to_xy', f'pos_to_xy differs ({spec["tag"]}, xvect={xname})', dict(rep, pts=pts))
-            continue
         xs = [cm.dyadic(rng, -4, 4, 3) for _ in range(m)]
         ys = [cm.dyadic(rng, -4, 4, 3) for _ in range(m)]
-        P2 = g.xy_to_pos(np.array(xs), np.array(ys), xvect=X)
+        r = call(g.xy_to_pos, np.array(xs), np.array(ys), xvect=X)
+        impl = r.cls if isinstance(r, Raised) else np.ravel(r)
         out = ctx.driver.ask(f'xy2p {hd} {m} ' + cm.frs([v for p in zip(xs, ys) for v in p]))
-        ctx.stats.case('xy2p', (spec['tag'], xname, tuple(xs), tuple(ys)))
-        if out.startswith('err:') or not cm.allclose(np.ravel(P2), cm.unfrs(out), 1e-9, 1e-10 * scale):
-            ctx.disagree('xy_to_pos', f'xy_to_pos differs ({spec["tag"]}, xvect={xname}): model {out[:60]}',
+        ctx.stats.case('xy2p', (spec['tag'], xname, tuple(xs), tuple(ys)), sample={'op': 'xy_to_pos', 'vects': spec['tag'], 'xvect': xname})
+        if isinstance(impl, str) or out.startswith('err:'):
+            if impl != out:
+                ctx.disagree('xy_to_pos', f'xy_to_pos xvect={xname} ({spec["tag"]}): implementation {r}, model {out[:60]}',
+                             dict(rep, xy=[xs, ys]))
+        elif not cm.allclose(impl, cm.unfrs(out), 1e-9, 1e-10 * scale):
+            ctx.disagree('xy_to_pos', f'xy_to_pos differs ({spec["tag"]}, xvect={xname}): implementation '
+                         f'{np.round(impl[:3], 6).tolist()}, model {[round(float(v), 6) for v in cm.unfrs(out)[:3]]}',
                          dict(rep, xy=[xs, ys]))
 
 
 # -- SDVPN ---------------------------------------------------------------------------------
 
-SYSTEMS = ['iso-edge', 'iso-screw', 'iso-mixed-rot', 'cubic-edge', 'cubic-mixed-fcc', 'cubic-yz']
+SYSTEMS = ['iso-edge', 'iso-screw', 'iso-mixed-rot', 'cubic-edge', 'cubic-mixed-fcc', 'cubic-yz', 'hex-basal-edge']
 
 
-def mk_system(name, rng=None, sinus=0.05, grid=(8, 3)):
-    """(volterra, gamma spec) for a named configuration."""
+def mk_volterra(name):
+    """(volterra solution, shift-vector setting) of a named configuration (deterministic)."""
     import atomman as am
     np = _np()
     if name.startswith('iso'):
         C = am.ElasticConstants(E=1.2, nu=0.3)
+    elif name.startswith('hex'):
+        C = am.ElasticConstants(C11=1.6, C12=0.9, C13=0.6, C33=1.8, C44=0.45)
     else:
         C = am.ElasticConstants(C11=1.6, C12=1.0, C44=0.7)
-    rngl = rng or random.Random(0)
     if name == 'iso-edge' or name == 'cubic-edge':
         v = am.defect.solve_volterra_dislocation(C, burgers=[2.5, 0, 0], transform=np.eye(3))
         vects = ([2.5, 0.0, 0.0], [0.0, 0.0, 4.0], None, 'rect-xz')
@@ -440,8 +522,21 @@ def mk_system(name, rng=None, sinus=0.05, grid=(8, 3)):
         # m = y, n = z, line along x
         v = am.defect.solve_volterra_dislocation(C, burgers=[0, 2.0, 0], transform=np.eye(3), m=[0, 1, 0], n=[0, 0, 1])
         vects = ([0.0, 2.0, 0.0], [1.5, 0.5, 0.0], None, 'oblique-xy')
+    elif name == 'hex-basal-edge':
+        # hexagonal cell (vects not symmetric), basal slip, a-type Burgers vector, line along [120]
+        hb = [[3.0, 0.0, 0.0], [-1.5, 2.598076211353316, 0.0], [0.0, 0.0, 5.0]]
+        box = am.Box(avect=hb[0], bvect=hb[1], cvect=hb[2])
+        v = am.defect.solve_volterra_dislocation(C, burgers=[1, 0, 0], ξ_uvw=[1, 2, 0], slip_hkl=[0, 0, 1], box=box)
+        vects = ([1.0, 0.0, 0.0], [0.0, 1.0, 0.0], hb, 'hex-basal')
     else:
         raise ValueError(name)
+    return v, vects
+
+
+def mk_system(name, rng=None, sinus=0.05, grid=(8, 3)):
+    """(volterra, gamma spec) for a named configuration."""
+    v, vects = mk_volterra(name)
+    rngl = rng or random.Random(0)
     spec = gen_gamma_spec(rngl, regime='generic', vects=vects, grid=grid, dup=False, delta=False, sinus=sinus)
     return v, spec
 
@@ -707,65 +802,1049 @@ def _arctan_case(ctx, rng):
         ctx.disagree('pn_arctan_disldensity', f'density differs from the model ({rep})', rep)
 
 
+# -- the SDVPN object under edit sequences (setters, solve(**kwargs), load) ---------------------
+
+FLAGS = ('fullstress', 'cdiffelastic', 'cdiffsurface', 'cdiffstress')
+WIRE = {'tau': 'tau', 'alpha': 'alpha', 'beta': 'beta', 'cutofflongrange': 'logL', 'fullstress': 'full',
+        'cdiffelastic': 'cde', 'cdiffsurface': 'cds', 'cdiffstress': 'cdt'}
+
+
+def rand_settings(rng, flags=None, physical=False):
+    """a JSON-able settings record (what is SET on an object; the oracle and the model never read it back).
+    `physical`: alpha, beta >= 0 and a small stress, so that the total energy is bounded below (a real minimiser run
+    on an unbounded energy walks off to disregistries of 1e8 b, where the O(|a|) wrap loop of E_gsf never ends)."""
+    np = _np()
+    tau = np.array([[cm.dyadic(rng, -1, 1, 5) * 0.05 for _ in range(3)] for _ in range(3)])
+    tau = (tau + tau.T) / 2
+    if rng.random() < 0.8 and not any(tau[1]):
+        tau[1, 0] = tau[0, 1] = 0.0125
+    beta = [[cm.dyadic(rng, -1, 1, 4) * 0.3 for _ in range(3)] for _ in range(3)]
+    k = rng.choice([1, 1, 2, 3])
+    alpha = [cm.dyadic(rng, -1, 1, 4) * 0.2 for _ in range(k)]
+    fl = flags if flags is not None else [rng.random() < 0.5 for _ in range(4)]
+    if physical:
+        beta = [[abs(t) / 4 for t in r] for r in beta]
+        alpha = [abs(t) / 4 for t in alpha]
+        tau = tau / 4
+    st = {'tau': tau.tolist(), 'beta': beta, 'alpha': alpha,
+          'cutofflongrange': rng.choice([1000.0, 250.0, 50.0, 37.5, 2.5, 1.0, 0.5])}
+    st.update(dict(zip(FLAGS, [bool(v) for v in fl])))
+    return st
+
+
+def new_pn(v, g, st):
+    import atomman as am
+    np = _np()
+    return am.defect.SDVPN(volterra=v, gamma=g, tau=np.array(st['tau']), alpha=list(st['alpha']),
+                           beta=np.array(st['beta']), cutofflongrange=st['cutofflongrange'],
+                           fullstress=st['fullstress'], cdiffelastic=st['cdiffelastic'],
+                           cdiffsurface=st['cdiffsurface'], cdiffstress=st['cdiffstress'])
+
+
+def _val_wire(attr, value):
+    np = _np()
+    if attr == 'tau':
+        return cm.frs(np.array(value)[1, :])
+    if attr == 'alpha':
+        return f'{len(value)} ' + cm.frs(list(value))
+    if attr == 'beta':
+        return cm.frs(np.array(value))
+    if attr == 'cutofflongrange':
+        return cm.fr(float(np.log(value)))
+    return _b(value)
+
+
+def settings_wire(K, b, T, st):
+    np = _np()
+    return ' '.join([cm.frs(K), cm.frs(b), cm.frs(T), cm.fr(np.pi)] + [_val_wire(a, st[a]) for a in
+                    ('tau', 'alpha', 'beta', 'cutofflongrange') + FLAGS])
+
+
+def rand_op(rng, st, n):
+    """one edit of an SDVPN object: a property setter, `solve(**kwargs)` or `load`."""
+    k = rng.random()
+    fresh = rand_settings(rng)
+    if k < 0.5:
+        attr = rng.choice(['cutofflongrange', 'cutofflongrange', 'tau', 'alpha', 'beta'] + list(FLAGS))
+        val = (not st[attr]) if attr in FLAGS else fresh[attr]
+        return {'kind': 'set', 'attr': attr, 'value': val}
+    if k < 0.8:
+        names = rng.sample(['cutofflongrange', 'tau', 'alpha', 'beta'] + list(FLAGS), rng.randint(0, 3))
+        if rng.random() < 0.5 and 'cutofflongrange' not in names:
+            names.append('cutofflongrange')
+        return {'kind': 'solve', 'kw': {a: ((not st[a]) if a in FLAGS else fresh[a]) for a in names},
+                'newprofile': rng.random() < 0.5}
+    return {'kind': 'load', 'settings': fresh, 'form': rng.choice(['dm', 'json', 'xml'])}
+
+
+def _eval_obj(ctx, name, pn, x, d, given, rep, step):
+    """the five table-free energy terms of the real object vs the model object, now."""
+    np = _np()
+    n = len(x)
+    prof = f'1 {n} {cm.frs(x)} {cm.frs(d)}' if given else '0'
+    cde = pn.cdiffelastic
+    dx = x[1] - x[0]
+    nrho = n - (2 if cde else 1)
+    logs = [float(np.log(np.abs(k) * dx)) for k in range(1, nrho + 1)]
+    names = ['long', 'stress', 'surface', 'nonlocal', 'elastic']
+    outs = ctx.driver.ask_many([f'oeval {t} {prof}' + (' ' + cm.frs(logs) if t == 'elastic' else '') for t in names])
+    a = (x, d) if given else ()
+    impl = {'long': call(pn.longrange_energy), 'stress': call(pn.stress_energy, *a),
+            'surface': call(pn.surface_energy, *a), 'nonlocal': call(pn.nonlocal_energy, *a),
+            'elastic': call(pn.elastic_energy, *a)}
+    rho_scale = float(np.abs(np.diff(np.asarray(d), axis=0)).max() / abs(dx)) + 1e-30
+    kmax = float(np.abs(pn.K_tensor).max())
+    lscale = max(abs(math.log(dx)), abs(math.log(n * dx)), 1.5)
+    tol = {'elastic': 1e-9 * n ** 3 * dx * dx * lscale * kmax * rho_scale ** 2, 'long': 1e-11, 'stress': 1e-10,
+           'surface': 1e-10, 'nonlocal': 1e-10}
+    for t, o in zip(names, outs):
+        ctx.stats.case('obj:' + t, (name, step, prof[:400], o[:60]),
+                       sample={'op': f'{t} after edit sequence', 'system': name, 'step': step, 'stored_profile': not given})
+        if isinstance(impl[t], Raised) or o.startswith('err:'):
+            ctx.disagree('obj:' + t, f'{t}_energy after step {step} ({rep["ops"][step - 1] if step else "fresh"}): '
+                         f'implementation {impl[t]}, model {o[:60]}', dict(rep, step=step, term=t))
+        elif not cm.close(float(impl[t]), Fraction(o), 1e-9, tol[t]):
+            ctx.disagree('obj:' + t, f'{t}_energy after step {step} ({rep["ops"][step - 1] if step else "fresh object"}) = '
+                         f'{float(impl[t])!r}, model object {float(Fraction(o))!r} ({name})', dict(rep, step=step, term=t))
+
+
+def _seq_case(ctx, name, v, g, spec, rng):
+    """ONE real object and ONE model object under the same edit sequence; energies compared after every step."""
+    import atomman as am
+    np = _np()
+    mod = sys.modules['atomman.defect.SDVPN']
+    st = rand_settings(rng)
+    pn = new_pn(v, g, st)
+    x, d = gen_profile(rng, pn, dyadic=True)
+    ops = []
+    rep = {'op': 'seq', 'system': name, 'spec': spec, 'settings0': dict(st), 'x': x.tolist(), 'd': d.tolist(), 'ops': ops}
+    K0, b0, T0 = pn.K_tensor.copy(), pn.burgers.copy(), pn.transform.copy()
+    ctx.driver.ask('onew ' + settings_wire(K0, b0, T0, st))
+    _eval_obj(ctx, name, pn, x, d, True, rep, 0)
+    for step in range(1, rng.randint(2, 5) + 1):
+        op = rand_op(rng, st, len(x))
+        ops.append(op)
+        if op['kind'] == 'set':
+            r = call(setattr, pn, op['attr'], np.array(op['value']) if op['attr'] in ('tau', 'beta') else op['value'])
+            out = ctx.driver.ask(f'oset {WIRE[op["attr"]]} ' + _val_wire(op['attr'], op['value']))
+            st[op['attr']] = op['value']
+            if isinstance(r, Raised) or out != 'ok':
+                ctx.disagree('obj:set', f'setting {op["attr"]}: implementation {r}, model {out}', dict(rep, step=step))
+                return
+        elif op['kind'] == 'solve':
+            if op['newprofile']:
+                x, d = gen_profile(rng, pn, dyadic=True)
+            kw = {a: (np.array(val) if a in ('tau', 'beta') else val) for a, val in op['kw'].items()}
+            fake = _FakeMin(rng)
+            orig = mod.minimize
+            mod.minimize = fake
+            try:
+                r = call(pn.solve, x=x, disregistry=d.copy(), **kw)
+            finally:
+                mod.minimize = orig
+            st.update(op['kw'])
+            if isinstance(r, Raised):
+                ctx.disagree('obj:solve', f'solve({sorted(op["kw"])}) with a stub minimiser: {r}', dict(rep, step=step))
+                return
+            opt = lambda a: ('1 ' + _val_wire(a, op['kw'][a])) if a in op['kw'] else '0'   # noqa: E731
+            line = (f'osolve 1 {len(x)} {cm.frs(x)} 1 {len(x)} {cm.frs(d)} ' + ' '.join(opt(a) for a in
+                    ('tau', 'alpha', 'beta', 'cutofflongrange') + FLAGS) + f' {len(fake.out)} ' + cm.frs(fake.out))
+            out = ctx.driver.ask(line)
+            got = np.asarray(pn.disregistry)
+            ctx.stats.case('obj:solve', (name, line[:600]), sample={'op': 'solve(**kwargs), stub minimiser', 'kwargs': sorted(op['kw'])})
+            if out.startswith('err:') or [F(float(t)) for t in got.ravel()] != cm.unfrs(out):
+                ctx.disagree('obj:solve', 'disregistry stored by solve(**kwargs) differs from the model object',
+                             dict(rep, step=step, got=got.tolist()))
+                return
+            op['res'] = fake.out.tolist()
+            d = got.copy()
+            _eval_obj(ctx, name, pn, x, d, False, rep, step)       # the stored profile
+        else:
+            st2 = op['settings']
+            src = new_pn(v, g, st2)
+            x, d = gen_profile(rng, src, dyadic=True)
+            src.x, src.disregistry = x, d
+            m = src.model(include_gamma=False)
+            form = {'dm': m, 'json': m.json(), 'xml': m.xml()}[op['form']]
+            r = call(pn.load, form, gamma=g)
+            out = ctx.driver.ask('oload ' + settings_wire(K0, b0, T0, st2) + f' {len(x)} {cm.frs(x)} {cm.frs(d)}')
+            st.clear()
+            st.update(st2)
+            if isinstance(r, Raised) or out != 'ok':
+                ctx.disagree('obj:load', f'load({op["form"]}) into an existing object: implementation {r}, model {out}', dict(rep, step=step))
+                return
+            sx, sd = np.asarray(pn.x), np.asarray(pn.disregistry)
+            if sx.shape != x.shape or not np.allclose(sx, x, rtol=1e-12, atol=1e-13) or not np.allclose(sd, d, rtol=1e-12, atol=1e-13):
+                ctx.disagree('obj:load', 'x / disregistry after load differ from the saved ones', dict(rep, step=step))
+                return
+            x, d = sx.copy(), sd.copy()
+            op['x'], op['d'] = x.tolist(), d.tolist()
+        # frame: what was not edited is unchanged; what was edited is what was set
+        bad = [a for a in ('tau', 'beta') if not np.allclose(np.asarray(getattr(pn, a)), np.array(st[a]), rtol=1e-12, atol=1e-15)]
+        bad += [a for a in FLAGS if getattr(pn, a) is not st[a]]
+        if not np.allclose(np.asarray(pn.alpha, dtype=float), np.array(st['alpha']), rtol=1e-12, atol=1e-15):
+            bad.append('alpha')
+        if not cm.close(pn.cutofflongrange, F(st['cutofflongrange']), 1e-12, 0):
+            bad.append('cutofflongrange')
+        if bad:
+            ctx.disagree('obj:frame', f'after {op["kind"]} the attributes {bad} are not what was set ({name})', dict(rep, step=step))
+        _eval_obj(ctx, name, pn, x, d, True, rep, step)
+
+
 def correspond(ctx):
     import atomman as am
     np = _np()
     rng = ctx.rng
     t0 = time.time()
     # ---- gamma surfaces
-    n_g = ctx.n(14, 120)
+    n_g = ctx.n(22, 160)
     specs = []
     for it in range(n_g):
         vects = VECTS[it % len(VECTS)]
-        regime = 'dyadic' if it % 2 == 0 else 'generic'
+        regime = 'dyadic' if (it // len(VECTS) + it) % 2 == 0 else 'generic'
         specs.append(gen_gamma_spec(rng, regime=regime, vects=vects, dup=(it % 3 == 1), delta=(it % 4 < 2)))
     for spec in specs:
-        try:
-            g = mk_gamma(spec)
-        except Exception as e:  # noqa
-            ctx.disagree('gamma:raises', f'GammaSurface construction raised {type(e).__name__}: {e}', {'op': 'fit', 'spec': spec})
+        g = call(mk_gamma, spec)
+        if isinstance(g, Raised):
+            ctx.disagree('gamma:raises', f'GammaSurface construction {g}', {'op': 'fit', 'spec': spec})
             continue
-        cs = _fit_case(ctx, spec, g, 'E')
+        rep = {'op': 'gamma', 'spec': spec}
+        cs = guarded(ctx, 'fit', rep, _fit_case, ctx, spec, g, 'E')
         if spec['delta'] is not None:
-            _fit_case(ctx, spec, g, 'delta')
+            guarded(ctx, 'fit', rep, _fit_case, ctx, spec, g, 'delta')
         rec, recd = spy(g)
         if cs is not None:
             for rep_ in range(ctx.n(2, 4)):
-                qs = gen_queries(rng, spec, ctx.n(12, 40), F(cs[0]), F(cs[1]))
-                _egsf_case(ctx, spec, g, rec, cs, qs)
+                qs = gen_queries(rng, spec, ctx.n(10, 40), F(cs[0]), F(cs[1]))
+                guarded(ctx, 'egsf', rep, _egsf_case, ctx, spec, g, rec, cs, qs)
+            qs = gen_queries(rng, spec, ctx.n(5, 12), F(cs[0]), F(cs[1]))
+            guarded(ctx, 'egsf:pos', rep, _egsf_case, ctx, spec, g, rec, cs, qs, 'pos')
+            for xname in ('default', rng.choice(['a2', 'mix'])):
+                guarded(ctx, 'egsf:xy', rep, _egsf_case, ctx, spec, g, rec, cs, qs, 'xy', xname)
             if recd is not None:
-                _delta_case(ctx, spec, g, recd, gen_queries(rng, spec, ctx.n(10, 30), F(0), F(0)))
-        _conv_case(ctx, spec, g, rng)
+                guarded(ctx, 'delta', rep, _delta_case, ctx, spec, g, recd, gen_queries(rng, spec, ctx.n(10, 30), F(0), F(0)))
+        guarded(ctx, 'conv', rep, _conv_case, ctx, spec, g, rng)
     ctx.extra['t_gamma_s'] = round(time.time() - t0, 2)
     # ---- SDVPN
     t1 = time.time()
     for si, name in enumerate(SYSTEMS):
+        rep = {'op': 'sdvpn', 'system': name}
         try:
             v, spec = mk_system(name, rng, grid=rng.choice([(8, 3), (6, 4), (10, 3)]))
             g = mk_gamma(spec)
             cs = _fit_case(ctx, spec, g, 'E')
             rec, _ = spy(g)
             pn = am.defect.SDVPN(volterra=v, gamma=g)
+        except cm.InfraError:
+            raise
         except Exception as e:  # noqa
-            ctx.disagree('sdvpn:raises', f'constructing {name} raised {type(e).__name__}: {e}', {'op': 'sdvpn', 'system': name})
+            ctx.disagree('sdvpn:raises', f'constructing {name} raised {type(e).__name__}: {e}', rep)
             continue
         if cs is None:
             continue
         for it in range(ctx.n(5, 40)):
-            _sdvpn_case(ctx, name, pn, rec, cs, spec, rng, dyadic=(it % 2 == 0))
+            guarded(ctx, 'sdvpn', rep, _sdvpn_case, ctx, name, pn, rec, cs, spec, rng, dyadic=(it % 2 == 0))
         for it in range(ctx.n(2, 10)):
-            _solve_embed_case(ctx, name, pn, rng)
+            guarded(ctx, 'solve-embed', rep, _solve_embed_case, ctx, name, pn, rng)
+        for it in range(ctx.n(3, 20)):
+            guarded(ctx, 'obj', rep, _seq_case, ctx, name, v, g, spec, rng)
     for it in range(ctx.n(30, 300)):
-        _arctan_case(ctx, rng)
+        guarded(ctx, 'arctan', {'op': 'arctan'}, _arctan_case, ctx, rng)
     ctx.extra['t_sdvpn_s'] = round(time.time() - t1, 2)
 
 
+# ----------------------------------------------------------------------------------------
+# failing-input search: the clauses of the property evaluated on the REAL code against an independent
+# oracle (exact Fractions for everything algebraic; `log`, `sqrt`, `atan`, `pi` from `math`).
+# Every case is a JSON-able dict; `replay` re-runs the same `chk_*` function on the stored dict.
+# ----------------------------------------------------------------------------------------
+
+EPS = 2.0 ** -52
+
+
+def FF(v):
+    return v if isinstance(v, Fraction) else Fraction(float(v))
+
+
+def fvec(v):
+    return [FF(t) for t in v]
+
+
+def o_cart(spec):
+    """exact Cartesian shift vectors `a1vect . vects`, `a2vect . vects` (rows of vects are a, b, c)."""
+    B = [[F(1), F(0), F(0)], [F(0), F(1), F(0)], [F(0), F(0), F(1)]] if spec['box'] is None else [fvec(r) for r in spec['box']]
+    a1, a2 = fvec(spec['a1vect']), fvec(spec['a2vect'])
+    A1 = [sum(a1[k] * B[k][c] for k in range(3)) for c in range(3)]
+    A2 = [sum(a2[k] * B[k][c] for k in range(3)) for c in range(3)]
+    return A1, A2
+
+
+def o_pos(A1, A2, a):
+    return [FF(a[0]) * A1[c] + FF(a[1]) * A2[c] for c in range(3)]
+
+
+def o_axes(A1, A2, X):
+    """unit plotting axes (floats) for the in-plane x axis X: x^ = X/|X|, y^ = (N x X)/|N x X|, N = A1 x A2."""
+    N = fcross(A1, A2)
+    Y = fcross(N, X)
+    nx = math.sqrt(float(fdot(X, X)))
+    ny = math.sqrt(float(fdot(Y, Y)))
+    return [float(t) / nx for t in X], [float(t) / ny for t in Y]
+
+def o_xy(A1, A2, X, pos):
+    """plotting coordinates of an exact position: x = pos . X/|X|, y = pos . (N x X)/|N x X|."""
+    N = fcross(A1, A2)
+    Y = fcross(N, X)
+    return (float(fdot(pos, X)) / math.sqrt(float(fdot(X, X))), float(fdot(pos, Y)) / math.sqrt(float(fdot(Y, Y))))
+
+
+def o_xvect(A1, A2, xname):
+    if xname == 'default':
+        return list(A1)
+    if xname == 'a2':
+        return list(A2)
+    if xname == 'mix':
+        return [A1[c] / 2 - A2[c] * F(3, 2) for c in range(3)]
+    raise ValueError(xname)
+
+
+def _cmp(a, b, rtol, atol):
+    """largest violation of |a-b| <= atol + rtol |b| over two equally shaped float sequences; None if fine."""
+    np = _np()
+    a = np.ravel(np.asarray(a, dtype=float))
+    b = np.ravel(np.asarray(b, dtype=float))
+    if a.shape != b.shape:
+        return f'shape {a.shape} vs {b.shape}'
+    if not np.all(np.isfinite(a)):
+        return 'non-finite value'
+    bad = np.abs(a - b) > atol + rtol * np.abs(b)
+    if bad.any():
+        k = int(np.argmax(np.abs(a - b) - (atol + rtol * np.abs(b))))
+        return f'index {k}: {a[k]!r} vs {b[k]!r}'
+    return None
+
+
+def chk_gamma(ctx, case):
+    """gamma-surface clauses: reproduces its input at the sampled shifts, periodic, the three kinds of
+    coordinates interchangeable (one or many positions), conversions mutual inverses, data-model round trip."""
+    import atomman as am
+    np = _np()
+    spec = case['spec']
+
+    def bad(key, what):
+        ctx.violate('gamma:' + key, f'{what} [{spec["tag"]} grid {spec["n1"]}x{spec["n2"]} dup={spec["dup"]}]', case)
+
+    g = call(mk_gamma, spec)
+    if isinstance(g, Raised):
+        bad('construct', f'GammaSurface(...) {g}')
+        return
+    A1, A2 = o_cart(spec)
+    scale = max(1.0, max(abs(v) for v in spec['E']))
+    L = max(1.0, max(abs(float(t)) for t in A1 + A2))
+    fit = getattr(g, '_GammaSurface__E_gsf_fit', None)
+    cond = float(np.linalg.cond(np.asarray(fit.A))) if fit is not None and hasattr(fit, 'A') else 1e6
+    # interpolation: backward-stable solve of the Rbf system, error <= c*eps*cond; evaluation at a point moved by
+    # an ulp changes the value by <= Lipschitz*ulp, covered by 1e-9
+    tolE = 256 * EPS * cond * scale + 1e-9 * scale
+    has_d = spec['delta'] is not None
+    dscale = max(1.0, max(abs(v) for v in spec['delta'])) if has_d else 1.0
+    tolD = 256 * EPS * cond * dscale + 1e-9 * dscale
+    periods = case['periods']
+    ns = len(spec['a1'])
+    # -- (1) reproduces the input energies at the sampled shifts, any integer period away; many and one
+    s1 = np.array([spec['a1'][i] + periods[i % len(periods)][0] for i in range(ns)])
+    s2 = np.array([spec['a2'][i] + periods[i % len(periods)][1] for i in range(ns)])
+    ctx.stats.case('s:interpolates', (spec['tag'], spec['n1'], spec['n2'], spec['dup'], tuple(spec['E'][:6])))
+    r = call(g.E_gsf, a1=s1.copy(), a2=s2.copy())
+    w = str(r) if isinstance(r, Raised) else _cmp(r, spec['E'], 0, tolE)
+    if w:
+        bad('interpolates', f'E_gsf at the sampled shifts (+ integer periods) does not reproduce the input energies: {w}')
+    for i in case['singles']:
+        r = call(g.E_gsf, a1=float(s1[i % ns]), a2=float(s2[i % ns]))
+        w = str(r) if isinstance(r, Raised) else _cmp(r, [spec['E'][i % ns]], 0, tolE)
+        if w:
+            bad('interpolates', f'E_gsf(a1={float(s1[i % ns])!r}, a2={float(s2[i % ns])!r}) (scalars) != input energy {spec["E"][i % ns]!r}: {w}')
+    if has_d:
+        r = call(g.delta, a1=s1.copy(), a2=s2.copy())
+        w = str(r) if isinstance(r, Raised) else _cmp(r, spec['delta'], 0, tolD)
+        if w:
+            bad('delta-interpolates', f'delta at the sampled shifts does not reproduce the input: {w}')
+    # -- (2) periodic in both shift vectors
+    q = case['queries']
+    q1 = np.array([t[0] for t in q], dtype=float)
+    q2 = np.array([t[1] for t in q], dtype=float)
+    m = len(q)
+    Ea = call(g.E_gsf, a1=q1.copy(), a2=q2.copy())
+    if isinstance(Ea, Raised):
+        bad('raises', f'E_gsf(a1=, a2=) {Ea}')
+        return
+    Ea = np.asarray(Ea, dtype=float)
+    Da = None
+    if has_d:
+        # delta is compared off the lattice lines only (on a line a = n the code evaluates the interpolant at 0
+        # or 1 depending on the side: equal only as far as the Rbf is periodic, not claimed)
+        offl = np.array([abs(a - round(a)) > 1e-6 and abs(b - round(b)) > 1e-6 for a, b in zip(q1, q2)])
+        Da = call(g.delta, a1=q1.copy(), a2=q2.copy())
+        if isinstance(Da, Raised):
+            bad('raises', f'delta(a1=, a2=) {Da}')
+            Da = None
+    for (n_, m_) in periods:
+        ctx.stats.case('s:periodic', (spec['tag'], n_, m_, tuple(q1), tuple(q2)))
+        r = call(g.E_gsf, a1=q1 + n_, a2=q2 + m_)
+        w = str(r) if isinstance(r, Raised) else _cmp(r, Ea, 0, tolE)
+        if w:
+            bad('periodic', f'E_gsf(a1 + {n_}, a2 + {m_}) != E_gsf(a1, a2): {w}; a1={q1.tolist()}, a2={q2.tolist()}')
+        if Da is not None and offl.any():
+            r = call(g.delta, a1=(q1 + n_)[offl], a2=(q2 + m_)[offl])
+            w = str(r) if isinstance(r, Raised) else _cmp(r, np.asarray(Da)[offl], 0, tolD)
+            if w:
+                bad('delta-periodic', f'delta(a1 + {n_}, a2 + {m_}) != delta(a1, a2): {w}')
+    # -- (3)+(4) conversions against the exact oracle, mutual inverses, interchangeable entry points
+    P = [o_pos(A1, A2, (FF(a), FF(b))) for a, b in zip(q1, q2)]
+    Pf = np.array([[float(t) for t in p_] for p_ in P])
+    tolP = 1e-12 * L * (1 + float(np.abs(q1).max()) + float(np.abs(q2).max()))
+    ctx.stats.case('s:conv', (spec['tag'], tuple(q1), tuple(q2)))
+
+    def conv(key, what, got, want, atol):
+        w = str(got) if isinstance(got, Raised) else _cmp(got, want, 1e-9, atol)
+        if w:
+            bad('conv:' + key, f'{what}: {w}')
+        return not w
+
+    conv('a12_to_pos', f'a12_to_pos({q1.tolist()}, {q2.tolist()}) != a1*A1 + a2*A2', call(g.a12_to_pos, q1, q2), Pf, tolP)
+    conv('a12_to_pos', f'a12_to_pos({q1[0]!r}, {q2[0]!r}) (one point)', call(g.a12_to_pos, q1[0], q2[0]), Pf[:1], tolP)
+    r = call(g.pos_to_a12, Pf.copy())
+    conv('pos_to_a12', 'pos_to_a12(a1*A1 + a2*A2) != (a1, a2) (many positions)',
+         r if isinstance(r, Raised) else np.array([np.ravel(r[0]), np.ravel(r[1])]), np.array([q1, q2]), 1e-9)
+    r = call(g.pos_to_a12, Pf[0].copy())
+    conv('pos_to_a12', 'pos_to_a12(one position) != (a1, a2)',
+         r if isinstance(r, Raised) else np.array([np.ravel(r[0]), np.ravel(r[1])]), np.array([q1[:1], q2[:1]]), 1e-9)
+    r = call(lambda: g.a12_to_pos(*g.pos_to_a12(Pf.copy())))
+    conv('a12-pos-roundtrip', 'a12_to_pos(pos_to_a12(pos)) != pos', r, Pf, 1e-9 * L)
+    for xname in case['xvects']:
+        X = o_xvect(A1, A2, xname)
+        Xf = None if xname == 'default' else np.array([float(t) for t in X])
+        kw = {} if Xf is None else {'xvect': Xf}
+        XY = np.array([o_xy(A1, A2, X, p_) for p_ in P])
+        tolXY = 1e-9 * L * (1 + float(np.abs(q1).max()) + float(np.abs(q2).max()))
+        ctx.stats.case('s:xy', (spec['tag'], xname, tuple(q1), tuple(q2)))
+        r = call(g.pos_to_xy, Pf.copy(), **kw)
+        conv('pos_to_xy', f'pos_to_xy(pos, xvect={xname}) != (pos.x^, pos.y^) (many)',
+             r if isinstance(r, Raised) else np.array([np.ravel(r[0]), np.ravel(r[1])]).T, XY, tolXY)
+        r = call(g.pos_to_xy, Pf[0].copy(), **kw)
+        conv('pos_to_xy', f'pos_to_xy(one position, xvect={xname})',
+             r if isinstance(r, Raised) else np.array([np.ravel(r[0]), np.ravel(r[1])]).T, XY[:1], tolXY)
+        r = call(g.xy_to_pos, XY[:, 0].copy(), XY[:, 1].copy(), **kw)
+        conv('xy_to_pos', f'xy_to_pos(x, y, xvect={xname}) != x x^ + y y^ (many): x={XY[:, 0].tolist()}, y={XY[:, 1].tolist()}', r, Pf, tolXY)
+        r = call(g.xy_to_pos, float(XY[0, 0]), float(XY[0, 1]), **kw)
+        conv('xy_to_pos', f'xy_to_pos({float(XY[0, 0])!r}, {float(XY[0, 1])!r}, xvect={xname}) (one point)', r, Pf[:1], tolXY)
+        r = call(lambda: g.xy_to_pos(*g.pos_to_xy(Pf.copy(), **kw), **kw))
+        conv('xy-pos-roundtrip', f'xy_to_pos(pos_to_xy(pos)) != pos (xvect={xname}); pos={Pf.tolist()}', r, Pf, tolXY)
+        r = call(lambda: np.array(g.pos_to_xy(g.xy_to_pos(XY[:, 0].copy(), XY[:, 1].copy(), **kw), **kw)).T)
+        conv('pos-xy-roundtrip', f'pos_to_xy(xy_to_pos(x, y)) != (x, y) (xvect={xname})', r, XY, tolXY)
+        r = call(g.a12_to_xy, q1, q2, **kw)
+        conv('a12_to_xy', f'a12_to_xy(a1, a2, xvect={xname})', r if isinstance(r, Raised) else np.array([np.ravel(r[0]), np.ravel(r[1])]).T, XY, tolXY)
+        r = call(g.xy_to_a12, XY[:, 0].copy(), XY[:, 1].copy(), **kw)
+        conv('xy_to_a12', f'xy_to_a12(x, y, xvect={xname}) != (a1, a2)',
+             r if isinstance(r, Raised) else np.array([np.ravel(r[0]), np.ravel(r[1])]), np.array([q1, q2]), 1e-9)
+        # interchangeable: the same physical points asked for in plotting coordinates
+        r = call(g.E_gsf, x=XY[:, 0].copy(), y=XY[:, 1].copy(), **kw)
+        w = str(r) if isinstance(r, Raised) else _cmp(r, Ea, 0, tolE)
+        if w:
+            bad('interchangeable', f'E_gsf(x=, y=, xvect={xname}) != E_gsf(a1=, a2=) for the same points: {w}; '
+                                   f'a1={q1.tolist()}, a2={q2.tolist()}, x={XY[:, 0].tolist()}, y={XY[:, 1].tolist()}')
+        r = call(g.E_gsf, x=float(XY[0, 0]), y=float(XY[0, 1]), **kw)
+        w = str(r) if isinstance(r, Raised) else _cmp(r, Ea[:1], 0, tolE)
+        if w:
+            bad('interchangeable', f'E_gsf(x={float(XY[0, 0])!r}, y={float(XY[0, 1])!r}, xvect={xname}) (one point) != E_gsf(a1={q1[0]!r}, a2={q2[0]!r}): {w}')
+        if Da is not None and offl.any():
+            r = call(g.delta, x=XY[offl, 0].copy(), y=XY[offl, 1].copy(), **kw)
+            w = str(r) if isinstance(r, Raised) else _cmp(r, np.asarray(Da)[offl], 0, tolD)
+            if w:
+                bad('interchangeable', f'delta(x=, y=, xvect={xname}) != delta(a1=, a2=): {w}')
+    r = call(g.E_gsf, pos=Pf.copy())
+    w = str(r) if isinstance(r, Raised) else _cmp(r, Ea, 0, tolE)
+    if w:
+        bad('interchangeable', f'E_gsf(pos=) != E_gsf(a1=, a2=) for the same points: {w}; a1={q1.tolist()}, a2={q2.tolist()}')
+    r = call(g.E_gsf, pos=Pf[0].copy())
+    w = str(r) if isinstance(r, Raised) else _cmp(r, Ea[:1], 0, tolE)
+    if w:
+        bad('interchangeable', f'E_gsf(pos=one position) != E_gsf(a1={q1[0]!r}, a2={q2[0]!r}): {w}')
+    if Da is not None and offl.any():
+        r = call(g.delta, pos=Pf[offl].copy())
+        w = str(r) if isinstance(r, Raised) else _cmp(r, np.asarray(Da)[offl], 0, tolD)
+        if w:
+            bad('interchangeable', f'delta(pos=) != delta(a1=, a2=): {w}')
+    # -- (5) data-model round trip (DataModelDict, JSON text, XML text; several units)
+    for form, lu, eu in case['models']:
+        ctx.stats.case('s:model', (spec['tag'], form, lu, eu, spec['n1'], spec['n2'], has_d))
+
+        def trip():
+            mdl = g.model(length_unit=lu, energyperarea_unit=eu)
+            return am.defect.GammaSurface(model={'dm': mdl, 'json': mdl.json(), 'xml': mdl.xml()}[form])
+        g2 = call(trip)
+        if isinstance(g2, Raised):
+            bad('model', f'GammaSurface(model=g.model(length_unit={lu!r}, energyperarea_unit={eu!r}) as {form}) {g2}')
+            continue
+        w = (_cmp(g2.data.a1.values, spec['a1'], 1e-14, 1e-15) or _cmp(g2.data.a2.values, spec['a2'], 1e-14, 1e-15)
+             or _cmp(g2.data.E_gsf.values, spec['E'], 1e-12, 1e-14 * scale)
+             or _cmp(g2.a1vect, spec['a1vect'], 1e-14, 0) or _cmp(g2.a2vect, spec['a2vect'], 1e-14, 0)
+             or _cmp(g2.box.vects, g.box.vects, 1e-12, 1e-14 * L)
+             or (('delta' in g2.data) != has_d and 'plane-separation data lost/invented')
+             or (has_d and _cmp(g2.data.delta.values, spec['delta'], 1e-12, 1e-14)))
+        if w:
+            bad('model', f'data-model round trip ({form}, {lu}, {eu}) changes the data: {w}')
+            continue
+        r = call(g2.E_gsf, a1=q1.copy(), a2=q2.copy())
+        w = str(r) if isinstance(r, Raised) else _cmp(r, Ea, 0, tolE)
+        if w:
+            bad('model', f'E_gsf of the reloaded surface ({form}) differs: {w}')
+
+
+# -- SDVPN: every energy term from its documented formula ---------------------------------------
+
+def o_density(x, d, cdiff):
+    k = 2 if cdiff else 1
+    return [[(d[i + k][c] - d[i][c]) / (x[i + k] - x[i]) for c in range(3)] for i in range(len(x) - k)]
+
+
+def o_terms(K, b, st, x, d):
+    """(value, sum of |summands|) of elastic, longrange, stress, surface, nonlocal for settings `st`:
+    E_elastic   = 1/(4 pi) sum_i sum_j chi(i,j,dx) K_lm rho_l[i] rho_m[j]
+                  chi = 3/2 dx^2 + psi(i-1,j-1) + psi(i,j) - psi(i,j-1) - psi(j,i-1),  psi(i,j) = 1/2 (i-j)^2 dx^2 ln(|i-j| dx)
+    E_longrange = 1/(2 pi) K_lm b_l b_m ln(L)
+    E_stress    = -1/2 sum_i (x[i]^2 - x[i-1]^2) rho_l[i] tau_2l     (fullstress; rho[i] between x[i-1] and x[i],
+                                                                        or centred at x[i] for the central difference)
+                | +1/2 sum_i tau_2l (d_l[i] + d_l[i+1]) dx           (Shen-Cheng form, sign of tau flipped as coded)
+    E_surface   = sum_j beta_lj / 4 sum_i rho_l[i]^2 dx
+    E_nonlocal  = sum_m alpha_m sum_i d[i] . (d[i] - (d[i+m] + d[i-m]) / 2) dx"""
+    x = fvec(x)
+    d = [fvec(r) for r in d]
+    K = [fvec(r) for r in K]
+    b = fvec(b)
+    n = len(x)
+    dx = x[1] - x[0]
+    pi = F(math.pi)
+    out = {}
+    # elastic
+    rho = o_density(x, d, st['cdiffelastic'])
+    nr = len(rho)
+    lg = {k: F(math.log(k * float(dx))) for k in range(1, nr + 2)}
+
+    def psi(i, j):
+        return F(0) if i == j else F(1, 2) * (i - j) ** 2 * dx * dx * lg[abs(i - j)]
+    tot = ab = F(0)
+    Kr = [[sum(r[l] * K[l][m_] for l in range(3)) for m_ in range(3)] for r in rho]
+    for i in range(nr):
+        for j in range(nr):
+            chi = F(3, 2) * dx * dx + psi(i - 1, j - 1) + psi(i, j) - psi(i, j - 1) - psi(j, i - 1)
+            t = chi * fdot(Kr[i], rho[j])
+            tot += t
+            ab += abs(t)
+    out['elastic'] = (tot / (4 * pi), ab / (4 * pi))
+    # longrange
+    v = sum(K[l][m_] * b[l] * b[m_] for l in range(3) for m_ in range(3)) * F(math.log(st['cutofflongrange'])) / (2 * pi)
+    out['longrange'] = (v, abs(v))
+    # stress
+    t2 = fvec(st['tau'][1])
+    tot = ab = F(0)
+    if st['fullstress']:
+        rho = o_density(x, d, st['cdiffstress'])
+        for i in range(1, len(rho) + 1):
+            t = -F(1, 2) * (x[i] ** 2 - x[i - 1] ** 2) * fdot(rho[i - 1], t2)
+            tot += t
+            ab += abs(t)
+    else:
+        for i in range(n - 1):
+            t = F(1, 2) * fdot(t2, [d[i][c] + d[i + 1][c] for c in range(3)]) * dx
+            tot += t
+            ab += abs(t)
+    out['stress'] = (tot, ab)
+    # surface
+    rho = o_density(x, d, st['cdiffsurface'])
+    beta = [fvec(r) for r in st['beta']]
+    tot = ab = F(0)
+    for r in rho:
+        for l in range(3):
+            for j in range(3):
+                t = beta[l][j] / 4 * r[l] ** 2 * dx
+                tot += t
+                ab += abs(t)
+    out['surface'] = (tot, ab)
+    # nonlocal
+    tot = ab = F(0)
+    for k, a in enumerate(st['alpha']):
+        m_ = k + 1
+        for i in range(m_, n - m_):
+            t = FF(a) * sum(d[i][c] * (d[i][c] - (d[i + m_][c] + d[i - m_][c]) / 2) for c in range(3)) * dx
+            tot += t
+            ab += abs(t)
+    out['nonlocal'] = (tot, ab)
+    return out
+
+
+def o_misfit(g, T, A1, A2, x, d, scale):
+    """dx * sum_i gamma(delta_i): the gamma surface asked one point at a time in FRACTIONAL coordinates obtained
+    by an exact solve of (dx, 0, dz).T = a1 A1 + a2 A2."""
+    np = _np()
+    Tq = [fvec(r) for r in T]
+    tot = 0.0
+    ab = 0.0
+    for row in d:
+        dr = [FF(row[0]), F(0), FF(row[2])]
+        pos = [sum(dr[l] * Tq[l][k] for l in range(3)) for k in range(3)]
+        a = exact_a12(A1, A2, pos)
+        e = float(np.ravel(g.E_gsf(a1=float(a[0]), a2=float(a[1])))[0])
+        tot += e
+        ab += abs(e)
+    dx = float(x[1]) - float(x[0])
+    return tot * dx, (ab + scale * len(d)) * abs(dx)
+
+
+TERMS = ('misfit', 'elastic', 'longrange', 'stress', 'nonlocal', 'surface')
+
+
+def _impl_terms(pn, a):
+    return {'misfit': call(pn.misfit_energy, *a), 'elastic': call(pn.elastic_energy, *a),
+            'longrange': call(pn.longrange_energy), 'stress': call(pn.stress_energy, *a),
+            'nonlocal': call(pn.nonlocal_energy, *a), 'surface': call(pn.surface_energy, *a),
+            'total': call(pn.total_energy, *a)}
+
+
+def _check_terms(ctx, case, bad, pn, g, K, b, T, A1, A2, st, x, d, given, when, scale):
+    """all six terms and the total of the real object `pn` against the oracle for settings `st`."""
+    np = _np()
+    impl = _impl_terms(pn, (np.asarray(x), np.asarray(d)) if given else ())
+    want = o_terms(K, b, st, x, d)
+    mis = call(o_misfit, g, T, A1, A2, x, d, scale)
+    if isinstance(mis, Raised):
+        bad('misfit', f'{when}: evaluating the gamma surface point by point {mis}')
+        return False
+    want['misfit'] = mis
+    ok = True
+    fl = {k: st[k] for k in FLAGS}
+    tot = 0.0
+    tol_tot = 0.0
+    for t in TERMS:
+        wv, wa = float(want[t][0]), float(want[t][1])
+        tol = 1e-9 * wa + 1e-13
+        tot += wv
+        tol_tot += tol
+        ctx.stats.case('s:term:' + t, (case['system'], when, str(fl), wv))
+        if isinstance(impl[t], Raised):
+            bad(t, f'{when}: {t}_energy {impl[t]} ({fl})')
+            ok = False
+        elif not abs(float(impl[t]) - wv) <= tol:
+            bad(t, f'{when}: {t}_energy = {float(impl[t])!r} but its documented formula gives {wv!r} '
+                   f'({fl}, cutofflongrange={st["cutofflongrange"]}, tau[1]={st["tau"][1]}, alpha={st["alpha"]}, n={len(x)})')
+            ok = False
+    ctx.stats.case('s:term:total', (case['system'], when, str(fl), tot))
+    if isinstance(impl['total'], Raised):
+        bad('total', f'{when}: total_energy {impl["total"]}')
+        ok = False
+    elif not abs(float(impl['total']) - tot) <= tol_tot:
+        bad('total', f'{when}: total_energy = {float(impl["total"])!r} but the sum of the six documented terms is {tot!r} ({fl}, '
+                     f'cutofflongrange={st["cutofflongrange"]})')
+        ok = False
+    return ok
+
+
+def _system(case):
+    """(volterra, gamma, A1, A2, scale) of a case dict."""
+    v, _ = mk_volterra(case["system"])
+    g = mk_gamma(case['spec'])
+    A1, A2 = o_cart(case['spec'])
+    return v, g, A1, A2, max(1.0, max(abs(t) for t in case['spec']['E']))
+
+
+def _apply_op(np, mod, pn, op, st, v, g, x, d):
+    """apply one edit to the real object and to the settings record; returns (Raised|None, x, d, given)."""
+    if op['kind'] == 'set':
+        r = call(setattr, pn, op['attr'], np.array(op['value']) if op['attr'] in ('tau', 'beta') else op['value'])
+        st[op['attr']] = op['value']
+        return (r if isinstance(r, Raised) else None), x, d, True
+    if op['kind'] == 'solve':
+        kw = {a: (np.array(val) if a in ('tau', 'beta') else val) for a, val in op['kw'].items()}
+        if op.get('x') is not None:
+            x, d = np.array(op['x']), np.array(op['d'])
+        r = call(pn.solve, x=x, disregistry=np.array(d).copy(), min_method=op.get('method', 'Nelder-Mead'),
+                 min_options=dict(op.get('options', {'maxfev': 10})), **kw)
+        st.update(op['kw'])
+        if isinstance(r, Raised):
+            return r, x, d, True
+        return None, np.asarray(pn.x).copy(), np.asarray(pn.disregistry).copy(), False
+    if op['kind'] == 'load':
+        src = new_pn(v, g, op['settings'])
+        src.x, src.disregistry = np.array(op['x']), np.array(op['d'])
+        m = src.model(include_gamma=bool(op.get('include_gamma')))
+        form = {'dm': m, 'json': m.json(), 'xml': m.xml()}[op['form']]
+        r = call(pn.load, form, **({} if op.get('include_gamma') else {'gamma': g}))
+        st.clear()
+        st.update(op['settings'])
+        if isinstance(r, Raised):
+            return r, x, d, True
+        return None, np.asarray(pn.x).copy(), np.asarray(pn.disregistry).copy(), False
+    raise ValueError(op['kind'])
+
+
+def chk_sdvpn(ctx, case):
+    """each energy term = independent evaluation of its documented formula; total = sum; on a fresh object and
+    after every step of an edit sequence on ONE object (setters, solve(**kwargs), load), where the same
+    settings on a fresh object must give the same energies."""
+    np = _np()
+
+    def bad(key, what):
+        ctx.violate('sdvpn:' + key, f'{what} [{case["system"]}]', case)
+
+    try:
+        v, g, A1, A2, scale = _system(case)
+        st = dict(case['settings'])
+        pn = new_pn(v, g, st)
+    except cm.InfraError:
+        raise
+    except Exception as e:  # noqa
+        bad('construct', f'constructing the SDVPN object raised {type(e).__name__}: {e}')
+        return
+    mod = sys.modules['atomman.defect.SDVPN']
+    K, b, T = np.array(pn.K_tensor, dtype=float).copy(), np.array(pn.burgers, dtype=float).copy(), np.array(pn.transform, dtype=float).copy()
+    x, d = np.array(case['x'], dtype=float), np.array(case['d'], dtype=float)
+    _check_terms(ctx, case, bad, pn, g, K, b, T, A1, A2, st, x, d, True, 'fresh object', scale)
+    for k, op in enumerate(case.get('ops', [])):
+        when = f'after step {k + 1} of {[o["kind"] + (":" + o["attr"] if o["kind"] == "set" else ":" + ",".join(sorted(o["kw"])) if o["kind"] == "solve" else "") for o in case["ops"][:k + 1]]} on one object'
+        r, x, d, given = _apply_op(np, mod, pn, op, st, v, g, x, d)
+        if r is not None:
+            bad('seq:raises', f'{when}: {r}')
+            return
+        okf = (np.allclose(pn.K_tensor, K, rtol=1e-12, atol=1e-14) and np.allclose(pn.burgers, b, rtol=1e-12, atol=1e-14)
+               and np.allclose(pn.transform, T, rtol=1e-12, atol=1e-14))
+        if not okf:
+            bad('seq:frame', f'{when}: K_tensor / burgers / transform changed')
+            return
+        ok = _check_terms(ctx, case, bad, pn, g, K, b, T, A1, A2, st, x, d, True, when, scale)
+        if not given:
+            ok = _check_terms(ctx, case, bad, pn, g, K, b, T, A1, A2, st, x, d, False, when + ' (stored x, disregistry)', scale) and ok
+        # the same settings on a fresh object
+        fresh = call(new_pn, v, g, st)
+        if not isinstance(fresh, Raised):
+            e1, e2 = call(pn.total_energy, x, d), call(fresh.total_energy, x, d)
+            ctx.stats.case('s:seq:fresh', (case['system'], when, repr(e2)))
+            if isinstance(e1, Raised) or isinstance(e2, Raised) or not abs(float(e1) - float(e2)) <= 1e-10 * (abs(float(e2)) + 1.0):
+                bad('seq:fresh', f'{when}: total_energy = {e1!s} but a fresh object with the same settings gives {e2!s}')
+        if not ok:
+            return
+
+
+def chk_elastic(ctx, case):
+    """the elastic term is a quadratic form of the density (parallelogram law, scaling) and does not change under
+    a rigid shift of the disregistry."""
+    np = _np()
+
+    def bad(key, what):
+        ctx.violate('elastic:' + key, f'{what} [{case["system"]}, cdiffelastic={case["cdiff"]}]', case)
+    try:
+        v, g, A1, A2, scale = _system(case)
+        import atomman as am
+        pn = am.defect.SDVPN(volterra=v, gamma=g, cdiffelastic=case['cdiff'])
+    except cm.InfraError:
+        raise
+    except Exception as e:  # noqa
+        bad('construct', f'{type(e).__name__}: {e}')
+        return
+    x = np.array(case['x'])
+    d1, d2 = np.array(case['d']), np.array(case['d2'])
+    c = np.array(case['shift'])
+    s_ = case['scale']
+    E = lambda dd: call(pn.elastic_energy, x, dd)   # noqa: E731
+    q1, q2, qp, qm, qs, qsh = E(d1), E(d2), E(d1 + d2), E(d1 - d2), E(s_ * d1), E(d1 + c)
+    ctx.stats.case('s:elastic', (case['system'], case['cdiff'], tuple(x), tuple(d1.ravel()), tuple(c)))
+    if any(isinstance(t, Raised) for t in (q1, q2, qp, qm, qs, qsh)):
+        bad('raises', f'elastic_energy raised: {[str(t) for t in (q1, q2, qp, qm, qs, qsh) if isinstance(t, Raised)][:1]}')
+        return
+    mag = abs(q1) + abs(q2) + abs(qp) + abs(qm) + 1e-30
+    if abs(qsh - q1) > 1e-9 * (abs(q1) + 1e-30) + 1e-9 * mag * 1e-3:
+        bad('shift', f'elastic_energy changes under the rigid shift {c.tolist()} of the disregistry: {q1!r} -> {qsh!r}')
+    if abs(qp + qm - 2 * q1 - 2 * q2) > 1e-9 * mag:
+        bad('quadratic', f'parallelogram law fails: Q(d1+d2) + Q(d1-d2) = {qp + qm!r}, 2Q(d1) + 2Q(d2) = {2 * q1 + 2 * q2!r}')
+    if abs(qs - s_ * s_ * q1) > 1e-9 * (abs(s_ * s_ * q1) + 1e-30):
+        bad('quadratic', f'Q({s_} d) = {qs!r} != {s_}^2 Q(d) = {s_ * s_ * q1!r}')
+
+
+def chk_solve(ctx, case):
+    """the real minimiser: the total energy never rises, the end disregistries (and x) stay, interior y stays 0."""
+    np = _np()
+
+    def bad(key, what):
+        ctx.violate('solve:' + key, f'{what} [{case["system"]}, method {case["method"]} {case["options"]}]', case)
+    try:
+        v, g, A1, A2, scale = _system(case)
+        pn = new_pn(v, g, case['settings'])
+    except cm.InfraError:
+        raise
+    except Exception as e:  # noqa
+        bad('construct', f'{type(e).__name__}: {e}')
+        return
+    x, d = np.array(case['x']), np.array(case['d'])
+    e0 = call(pn.total_energy, x, d)
+    r = call(pn.solve, x=x.copy(), disregistry=d.copy(), min_method=case['method'], min_options=dict(case['options']))
+    ctx.stats.case('s:solve', (case['system'], case['method'], str(case['options']), tuple(x), tuple(d.ravel())))
+    if isinstance(r, Raised) or isinstance(e0, Raised):
+        bad('raises', f'solve {r if isinstance(r, Raised) else e0}')
+        return
+    got = np.asarray(pn.disregistry)
+    e1 = call(pn.total_energy)
+    e1x = call(pn.total_energy, x, got)
+    if isinstance(e1, Raised) or isinstance(e1x, Raised):
+        bad('raises', f'total_energy after solve {e1}')
+        return
+    if got.shape != d.shape or not np.array_equal(got[0], d[0]) or not np.array_equal(got[-1], d[-1]):
+        bad('ends', f'solve moved an end disregistry: first {d[0].tolist()} -> {got[0].tolist()}, last {d[-1].tolist()} -> {got[-1].tolist()}')
+    elif np.any(got[1:-1, 1] != 0.0):
+        bad('ends', 'solve produced a non-zero out-of-plane (y) disregistry')
+    if not np.array_equal(np.asarray(pn.x), x):
+        bad('ends', 'solve changed the x coordinates')
+    if not float(e1) <= float(e0) + 1e-12 * (abs(float(e0)) + 1.0):
+        bad('raises-energy', f'solve raised the total energy: {float(e0)!r} -> {float(e1)!r}')
+    if abs(float(e1) - float(e1x)) > 1e-12 * (abs(float(e1)) + 1.0):
+        bad('stored', f'total_energy() of the stored solution {float(e1)!r} != total_energy(x, disregistry) {float(e1x)!r}')
+    # a second solve from the solution must not raise it either
+    r = call(pn.solve)
+    e2 = call(pn.total_energy)
+    if isinstance(r, Raised) or isinstance(e2, Raised):
+        bad('raises', f'second solve() {r if isinstance(r, Raised) else e2}')
+    elif not float(e2) <= float(e1) + 1e-12 * (abs(float(e1)) + 1.0):
+        bad('raises-energy', f'a second solve() raised the total energy: {float(e1)!r} -> {float(e2)!r}')
+
+
+def chk_halfwidth(ctx, case):
+    """sinusoidal misfit law gamma(u) = g0/2 (1 - cos(2 pi u / b)): over arctangent profiles (end disregistries 0 and
+    b) the total energy is lowest at the classical half-width zeta = K b^2 / (4 pi^2 g0), K = b.K.b / b^2.
+    Stated tolerance: window [-X, X] truncates the profile, which moves the minimum by ~(zeta/X) ln(X/zeta)
+    (measured; first order in zeta/X), the grid by (dx/zeta)^2 / 12, the Rbf fit of n1 samples of the cosine by
+    < 1 %: |w_min / zeta - 1| <= 1.5 (zeta/X) ln(X/zeta) + (dx/zeta)^2 + 0.02."""
+    import atomman as am
+    np = _np()
+
+    def bad(key, what):
+        ctx.violate('halfwidth:' + key, what, case)
+    b, g0 = case['b'], case['g0']
+    try:
+        C = am.ElasticConstants(E=case['E'], nu=case['nu'])
+        if case['kind'] == 'edge':
+            v = am.defect.solve_volterra_dislocation(C, burgers=[b, 0, 0], transform=np.eye(3))
+            a1v, a2v = [b, 0.0, 0.0], [0.0, 0.0, 4.0]
+        else:
+            v = am.defect.solve_volterra_dislocation(C, burgers=[0, 0, b], transform=np.eye(3))
+            a1v, a2v = [0.0, 0.0, b], [3.0, 0.0, 0.0]
+        n1, n2 = case['n1'], 3
+        a1 = [i / n1 for i in range(n1) for j in range(n2)]
+        a2 = [j / n2 for i in range(n1) for j in range(n2)]
+        E = [g0 / 2 * (1 - math.cos(2 * math.pi * p)) for p in a1]
+        g = am.defect.GammaSurface(a1vect=a1v, a2vect=a2v, a1=np.array(a1), a2=np.array(a2), E_gsf=np.array(E))
+        pn = am.defect.SDVPN(volterra=v, gamma=g)
+        bv = np.array(pn.burgers, dtype=float)
+        Kbb = float(bv @ pn.K_tensor @ bv) / b ** 2
+    except cm.InfraError:
+        raise
+    except Exception as e:  # noqa
+        bad('construct', f'{type(e).__name__}: {e}')
+        return
+    zeta = Kbb * b * b / (4 * math.pi ** 2 * g0)
+    dx = b * case['step_frac']
+    X = case['xmax_fac'] * zeta
+    nx = int(X / dx)
+    x = np.arange(-nx, nx + 1) * dx
+    X = nx * dx
+
+    def energy(w):
+        xx, d = am.defect.pn_arctan_disregistry(x=x, burgers=bv, halfwidth=w, normalize=True)
+        return float(pn.total_energy(xx, d))
+    ws = [zeta * (0.5 + 0.0625 * k) for k in range(25)]     # 0.5 .. 2.0 zeta
+    Es = call(lambda: [energy(w) for w in ws])
+    ctx.stats.case('s:halfwidth', (case['kind'], b, g0, case['E'], case['nu'], n1, case['step_frac'], case['xmax_fac']),
+                   sample={'op': 'halfwidth scan', 'zeta': zeta, 'dx': dx, 'X': X, 'points': len(x)})
+    if isinstance(Es, Raised):
+        bad('raises', f'energy of an arctangent profile {Es}')
+        return
+    k = int(np.argmin(Es))
+    if 0 < k < len(ws) - 1:
+        p_ = np.polyfit(ws[k - 1:k + 2], Es[k - 1:k + 2], 2)
+        wmin = float(-p_[1] / (2 * p_[0]))
+    else:
+        wmin = ws[k]
+    tol = 1.5 * (zeta / X) * math.log(X / zeta) + (dx / zeta) ** 2 + 0.02
+    ctx.extra.setdefault('halfwidth_scans', []).append({'kind': case['kind'], 'zeta': round(zeta, 5), 'wmin_over_zeta': round(wmin / zeta, 4),
+                                                         'tolerance': round(tol, 4), 'points': len(x)})
+    if abs(wmin / zeta - 1) > tol:
+        bad('minimum', f'energy over arctangent profiles is lowest at half-width {wmin!r} = {wmin / zeta:.4f} x the classical '
+                       f'K b^2/(4 pi^2 g0) = {zeta!r} (tolerance {tol:.3f}; {case["kind"]}, b={b}, g0={g0}, dx=b*{case["step_frac"]}, X={X:.2f})')
+
+
+def chk_arctan(ctx, case):
+    """analytic arctangent profile and its density against the closed forms (math.atan)."""
+    import atomman as am
+    np = _np()
+
+    def bad(key, what):
+        ctx.violate('arctan:' + key, what, case)
+    x = np.array(case['x'])
+    b = np.array(case['burgers'])
+    c, w = case['center'], case['halfwidth']
+    r = call(am.defect.pn_arctan_disregistry, x=x, burgers=b, center=c, halfwidth=w, normalize=case['normalize'], shift=case['shift'])
+    r2 = call(am.defect.pn_arctan_disldensity, x=x, burgers=b, center=c, halfwidth=w, normalize=case['normalize'])
+    ctx.stats.case('s:arctan', (tuple(x), tuple(b), c, w, case['normalize'], case['shift']))
+    if isinstance(r, Raised) or isinstance(r2, Raised):
+        bad('raises', f'pn_arctan_* {r if isinstance(r, Raised) else r2}')
+        return
+    raw = [[bi / math.pi * math.atan((xi - c) / w) + bi / 2 for bi in b] for xi in x]
+    nb = math.sqrt(sum(bi * bi for bi in b))
+    span = math.sqrt(sum((raw[-1][k] - raw[0][k]) ** 2 for k in range(3)))
+    want = [[(row[k] - raw[0][k]) * nb / span for k in range(3)] for row in raw] if case['normalize'] else raw
+    if not case['shift']:
+        want = [[row[k] - b[k] / 2 for k in range(3)] for row in want]
+    wd = [[bi / math.pi * w / ((xi - c) ** 2 + w * w) * (nb / span if case['normalize'] else 1.0) for bi in b] for xi in x]
+    wv = _cmp(r[1], want, 1e-11, 1e-13) or _cmp(r[0], x, 0, 0)
+    if wv:
+        bad('disregistry', f'pn_arctan_disregistry != b/pi atan((x-c)/w) + b/2 (normalize={case["normalize"]}, shift={case["shift"]}): {wv}')
+    wv = _cmp(r2[1], wd, 1e-11, 1e-13)
+    if wv:
+        bad('disldensity', f'pn_arctan_disldensity != b/pi w/((x-c)^2 + w^2) (normalize={case["normalize"]}): {wv}')
+
+
+CHECKS = {'gamma': chk_gamma, 'sdvpn': chk_sdvpn, 'elastic': chk_elastic, 'solve': chk_solve, 'halfwidth': chk_halfwidth,
+          'arctan': chk_arctan}
+
+
+def run_case(ctx, case):
+    """one search case; an exception escaping the evaluation is reported as a failure of that case."""
+    try:
+        CHECKS[case['op']](ctx, case)
+    except cm.InfraError:
+        raise
+    except Exception as e:  # noqa
+        import traceback
+        where = [l.strip() for l in traceback.format_exc().splitlines() if l.strip().startswith('File ')][-1:]
+        ctx.violate(case['op'] + ':exception', f'evaluating the case raised {type(e).__name__}: {str(e)[:200]} ({"; ".join(where)})', case)
+
+
+def _profile_json(rng, pn, dyadic=True, n=None):
+    x, d = gen_profile(rng, pn, n=n, dyadic=dyadic)
+    return x.tolist(), d.tolist()
+
+
+def gen_search_ops(rng, st, pn):
+    """edit sequence for the search: always contains evaluate -> change the cut-off -> evaluate."""
+    ops = []
+    cur = dict(st)
+    for _ in range(rng.randint(2, 4)):
+        op = rand_op(rng, cur, 0)
+        if op['kind'] == 'solve':
+            op.pop('newprofile')
+            if rng.random() < 0.5:
+                op['x'], op['d'] = _profile_json(rng, pn)
+            op['method'] = 'Nelder-Mead'      # a few simplex steps next to the start point, whatever the settings
+            op['options'] = {'maxfev': rng.choice([5, 20])}
+            cur.update(op['kw'])
+        elif op['kind'] == 'load':
+            op['x'], op['d'] = _profile_json(rng, pn)
+            op['include_gamma'] = rng.random() < 0.3
+            cur = dict(op['settings'])
+        else:
+            cur[op['attr']] = op['value']
+        ops.append(op)
+    return ops
+
+
 def search(ctx, broken):
-    pass
+    import atomman as am
+    np = _np()
+    rng = ctx.rng
+    t0 = time.time()
+    big = 3 if broken else 1
+    # ---- gamma surfaces: every cell setting, both regimes
+    n_g = ctx.n(len(VECTS), 6 * len(VECTS)) * big
+    for it in range(n_g):
+        vects = VECTS[it % len(VECTS)]
+        regime = 'dyadic' if (it // len(VECTS) + it) % 2 == 0 else 'generic'
+        spec = gen_gamma_spec(rng, regime=regime, vects=vects, dup=(it % 3 == 1), delta=(it % 2 == 0))
+        dy = regime == 'dyadic'
+        m = rng.choice([1, 3, 6])
+        qs = [[cm.dyadic(rng, -3, 3, 5), cm.dyadic(rng, -3, 3, 5)] if dy else [rng.uniform(-3, 3), rng.uniform(-3, 3)] for _ in range(m)]
+        if rng.random() < 0.5:
+            k = rng.randrange(len(spec['a1']))
+            qs[0] = [spec['a1'][k], spec['a2'][k]]
+        case = {'op': 'gamma', 'spec': spec, 'queries': qs,
+                'periods': [[rng.randint(-3, 3), rng.randint(-3, 3)] for _ in range(3)] + [[1, 0], [0, -1]],
+                'singles': [rng.randrange(len(spec['a1'])) for _ in range(2)],
+                'xvects': ['default', rng.choice(['a2', 'mix'])],
+                'models': [[rng.choice(['dm', 'json', 'xml']), rng.choice(['angstrom', 'nm']), rng.choice(['mJ/m^2', 'eV/angstrom^2', 'J/m^2'])]]}
+        run_case(ctx, case)
+    ctx.extra['t_search_gamma_s'] = round(time.time() - t0, 2)
+    # ---- SDVPN: all 16 combinations of (fullstress, cdiffelastic, cdiffsurface, cdiffstress) per system, with
+    #      non-zero tau rows, alpha, beta, cut-off; then edit sequences on one object
+    t1 = time.time()
+    combos = [[bool(k & 8), bool(k & 4), bool(k & 2), bool(k & 1)] for k in range(16)]
+    for name in SYSTEMS:
+        try:
+            v, spec = mk_system(name, rng, grid=rng.choice([(8, 3), (6, 4), (10, 3)]))
+            g = mk_gamma(spec)
+            pn0 = am.defect.SDVPN(volterra=v, gamma=g)
+        except cm.InfraError:
+            raise
+        except Exception as e:  # noqa
+            ctx.violate('sdvpn:construct', f'constructing {name} raised {type(e).__name__}: {e}', {'op': 'none', 'system': name})
+            continue
+        order = combos[:]
+        rng.shuffle(order)
+        for k, fl in enumerate(order * big):
+            st = rand_settings(rng, flags=fl)
+            x, d = _profile_json(rng, pn0, dyadic=(k % 2 == 0), n=rng.randint(5, 9))
+            case = {'op': 'sdvpn', 'system': name, 'spec': spec, 'settings': st, 'x': x, 'd': d, 'ops': []}
+            if k % 4 == 0:
+                case['ops'] = gen_search_ops(rng, st, pn0)
+            run_case(ctx, case)
+        for k in range(ctx.n(2, 8) * big):
+            x, d = _profile_json(rng, pn0, dyadic=True, n=rng.randint(5, 10))
+            _, d2 = gen_profile(rng, pn0, n=len(x), dyadic=True)
+            run_case(ctx, {'op': 'elastic', 'system': name, 'spec': spec, 'x': x, 'd': d, 'd2': d2.tolist(),
+                           'shift': [cm.dyadic(rng, -2, 2, 3), 0.0, cm.dyadic(rng, -2, 2, 3)], 'scale': rng.choice([2.0, -0.5, 3.0]),
+                           'cdiff': k % 2 == 0})
+        for k in range(ctx.n(2, 8) * big):
+            x, d = _profile_json(rng, pn0, dyadic=False, n=rng.randint(6, 12))
+            method = ['Powell', 'Nelder-Mead', 'L-BFGS-B', 'BFGS'][k % 4]
+            opts = {'Powell': {'maxiter': 1}, 'Nelder-Mead': {'maxiter': 60}, 'L-BFGS-B': {'maxiter': 3}, 'BFGS': {'maxiter': 3}}[method]
+            run_case(ctx, {'op': 'solve', 'system': name, 'spec': spec, 'settings': rand_settings(rng, physical=True), 'x': x, 'd': d,
+                           'method': method, 'options': opts})
+    ctx.extra['t_search_sdvpn_s'] = round(time.time() - t1, 2)
+    # ---- classical half-width
+    t2 = time.time()
+    scans = [{'kind': 'edge', 'b': 2.5, 'g0': 0.05, 'E': 1.2, 'nu': 0.3, 'n1': 8, 'step_frac': 0.1, 'xmax_fac': 40},
+             {'kind': 'screw', 'b': 3.0, 'g0': 0.04, 'E': 1.2, 'nu': 0.3, 'n1': 12, 'step_frac': 0.1, 'xmax_fac': 30}]
+    if ctx.thorough or broken:
+        scans += [{'kind': 'edge', 'b': 2.0, 'g0': 0.1, 'E': 2.0, 'nu': 0.25, 'n1': 10, 'step_frac': 0.05, 'xmax_fac': 60},
+                  {'kind': 'screw', 'b': 2.5, 'g0': 0.02, 'E': 0.8, 'nu': 0.35, 'n1': 16, 'step_frac': 0.08, 'xmax_fac': 40}]
+    for sc in scans:
+        run_case(ctx, dict(sc, op='halfwidth'))
+    ctx.extra['t_search_halfwidth_s'] = round(time.time() - t2, 2)
+    for it in range(ctx.n(20, 200)):
+        n = rng.randint(3, 12)
+        dx = rng.choice([0.25, 0.5, 0.1, 0.3])
+        x0 = rng.choice([0.0, 0.3, -1.0])
+        run_case(ctx, {'op': 'arctan', 'x': [x0 + dx * (i - (n - 1) / 2) for i in range(n)],
+                       'burgers': rng.choice([[1.0, 0.0, 0.0], [2.5, 0.0, 0.0], [0.0, 0.0, 3.0], [1.5, 0.0, -2.0], [0.5, 0.25, 1.0]]),
+                       'center': rng.choice([0.0, 0.0, 0.25, -1.0]), 'halfwidth': rng.choice([1.0, 0.5, 2.0, 0.3, 1.7]),
+                       'normalize': rng.random() < 0.6, 'shift': rng.random() < 0.6})
 
 
 def replay(ctx, payload):
-    search(ctx, True)
+    """re-run one stored case (`failing-input` replay files hold the case dict of the search)."""
+    r = payload.get('replay') or {}
+    if isinstance(r, dict) and r.get('op') in CHECKS:
+        n0 = len(ctx.violations)
+        run_case(ctx, r)
+        print(f'replay {r["op"]}: {"still fails: " + ctx.violations[n0].what[:300] if len(ctx.violations) > n0 else "passes now"}')
+    else:
+        correspond(ctx)
+        search(ctx, True)
 
 
 MANIFEST = {
